@@ -341,6 +341,12 @@ func errorPropagated(fn *ssa.Function, after ssa.Instruction, r ssa.Value) (bool
 						return
 					}
 				}
+				// a branch on another result of the same call which the callee ties to its error (`stop, err := notify(..)`
+				// where every failing return of notify answers stop==true): the other edge is a nil-error edge
+				if succ, tiedTo := errTiedResultEdge(after, r, x.Cond); tiedTo {
+					visit(b.Succs[succ], 0)
+					return
+				}
 				tv, tnn, ok := ir.NilTest(x.Cond)
 				if ok && isR(tv) {
 					// follow only the non-nil edge
@@ -361,6 +367,65 @@ func errorPropagated(fn *ssa.Function, after ssa.Instruction, r ssa.Value) (bool
 	}
 	visit(start, ir.InstrIndex(after)+1)
 	return bad == nil, bad
+}
+
+// errTiedResultEdge: cond branches on a boolean result of the call `after` (possibly negated) other than its error
+// result r, and the callee — a function or a closure called in place, whose body is known — returns one and the same
+// boolean constant in that position on every return whose error is not the nil constant. Then the error can be
+// non-nil only on the edge where the result has that constant: succ is the index of that successor.
+func errTiedResultEdge(after ssa.Instruction, r ssa.Value, cond ssa.Value) (succ int, ok bool) {
+	call, isCall := after.(*ssa.Call)
+	rex, isEx := r.(*ssa.Extract)
+	if !isCall || !isEx || rex.Tuple != ssa.Value(call) {
+		return 0, false
+	}
+	neg := false
+	for {
+		u, isU := cond.(*ssa.UnOp)
+		if !isU || u.Op != token.NOT {
+			break
+		}
+		cond, neg = u.X, !neg
+	}
+	ex, isEx := cond.(*ssa.Extract)
+	if !isEx || ex.Tuple != ssa.Value(call) || ex.Index == rex.Index {
+		return 0, false
+	}
+	callee := calleeOrClosure(&call.Call)
+	if callee == nil || callee.Blocks == nil {
+		return 0, false
+	}
+	for _, b := range callee.Blocks {
+		for _, ins := range b.Instrs {
+			switch ins.(type) {
+			case *ssa.Defer, *ssa.RunDefers:
+				return 0, false // a deferred function may change the results after the return statement
+			}
+		}
+	}
+	rets := ir.Returns(callee)
+	n, val := 0, false
+	for _, hr := range rets {
+		if ex.Index >= len(hr.Results) || rex.Index >= len(hr.Results) {
+			return 0, false
+		}
+		if ir.IsNilConst(ir.ForwardLoad(hr.Results[rex.Index])) {
+			continue
+		}
+		k, isK := ir.ConstBool(ir.ForwardLoad(hr.Results[ex.Index]))
+		if !isK || (n > 0 && k != val) {
+			return 0, false
+		}
+		n, val = n+1, k
+	}
+	if n == 0 {
+		return 0, false
+	}
+	// error non-nil => result == val => cond == (val != neg)
+	if val != neg {
+		return 0, true
+	}
+	return 1, true
 }
 
 // storeSites: the places of package mast that hand a name and bytes to Persist.Store. A pure pass-through wrapper
